@@ -111,7 +111,7 @@ class Runner:
         src = case.source()
         real = R.transform(src, mode)
         forced = None
-        if real["status"] == "refused":
+        if real["status"] == "refused" and not case.tag.startswith("family:"):   # family: verdict + behaviour only
             forced = R.transform(src, mode, force=True)
         return real, forced
 
@@ -130,9 +130,10 @@ class Runner:
         def gf(k):
             (case, mode), (real, _) = cases_modes[k], pre[k]
             if real["status"] == "accepted" and gfortran:
-                return gfortran_compare(case, real, self.reps)
+                # the systematic family is decided exhaustively by the model; one gfortran run per configuration
+                return gfortran_compare(case, real, 1 if case.tag.startswith("family:") and self.reps <= 2 else self.reps)
             return None
-        with ThreadPoolExecutor(max_workers=6) as ex:
+        with ThreadPoolExecutor(max_workers=8) as ex:
             gfs = list(ex.map(gf, range(len(cases_modes))))
         res = []
         for (case, mode), (real, forced), model, g in zip(cases_modes, pre, models, gfs):
@@ -143,6 +144,8 @@ class Runner:
 def clause_agreement(real, forced, model):
     """-> (agree, description of the real side)"""
     r = real if real["status"] != "refused" else forced
+    if r is None:
+        return True, {"refused": real["message"][:100]}
     if r["status"] == "accepted":
         impl = {"private": r["private"], "firstprivate": r["firstprivate"], "sync": []}
     elif r["status"] == "generation-error":
@@ -236,7 +239,9 @@ def corpus_cases():
 
 def run(chk):
     thorough = chk.tier == "thorough"
-    chk.cov["rule"] = ("generated Fortran loops (45% targeted shapes: unconditional/conditional/guarded temporaries, "
+    chk.cov["rule"] = ("first a systematic family of 2-deep nests over a rank-2 array with the OUTER loop parallelised "
+                       "(write/read and write/write pairs at distance 0,+-1,+-2 in the parallel variable x offsets 0,+-1 "
+                       "in the inner variable x both index orders), then the corpus, then generated Fortran loops (45% targeted shapes: unconditional/conditional/guarded temporaries, "
                        "if/else temporaries, reductions, read-then-write, written-once scalars, nested and zero-trip "
                        "inner loops, inner loop variables used outside, shifted//2/MOD subscripts; 55% random bodies), "
                        "each through OMPParallelLoopTrans or OMPLoopTrans+OMPParallelTrans with schedule(runtime); "
@@ -259,10 +264,11 @@ def run(chk):
              "violations": 0, "known_class": {}, "known_class_gfortran": {}}
     runner = Runner(reps=(6 if thorough else 2))
     gen = R.Gen(chk.rng)
-    n = 400 if thorough else 70
+    n = 320 if thorough else 50
     if os.environ.get("VERIF_C09_CASES"):          # self-test aid: fewer random cases (the corpus always runs)
         n = int(os.environ["VERIF_C09_CASES"])
-    todo = corpus_cases()
+    todo = [(c, "paralleldo" if k % 3 else "do+parallel") for k, c in enumerate(R.family_cases(thorough))]
+    todo += corpus_cases()
     for _ in range(n):
         todo.append((gen.case(), chk.rng.choice(["paralleldo", "paralleldo", "do+parallel"])))
     batch = 35
